@@ -309,6 +309,7 @@ def mat_mul_rows(a_rows, b_rows):
 def tri_dim(g, sz):
     """dimension of a triangular system: around 64 and around the regime thresholds below sz"""
     r = g.rng
+    sz = max(sz, 1)
     if r.random() < 0.5:
         cand = [d for d in (1, 2, 31, 32, 33, 63, 64, 65, 66, 96, 127, 128, 129, 130, 191, 192, 193, 255, 256, 257, 258, 300,
                             362, 363, 364, 384, 385, 448, 511, 512, 513, 600) if d <= sz]
